@@ -458,7 +458,7 @@ def gen_lp_rotation(r):
 
 
 def gen_c13(r, int_frac=0.0, strict_frac=0.0, maxlen=None):
-    if int_frac == 0.0 and r.random() < 0.08:
+    if int_frac == 0.0 and r.random() < 0.1:
         return gen_redeclare(r)
     if int_frac == 0.0 and r.random() < 0.1:
         return gen_lp_rotation(r)
@@ -672,7 +672,7 @@ def gen_handle(r, sp, hid, enames):
         e = r.choice([h for h in sp["hess_pref"] if h in sp["exprs"]] or [e])
     need = sorted(S.mentioned(sp, sp["exprs"][e]), key=S.natural_key)
     a = {"e": e, "order": _gen_order(r, sp, need)}
-    if len(need) >= 2 and r.random() < 0.04:
+    if len(need) >= 2 and r.random() < 0.1:
         # a request that cannot be compiled: a needed variable is missing from the order
         a["order"] = [n for n in a["order"] if n != need[-1]]
     if kind == "symgrad":
@@ -1386,13 +1386,13 @@ def gen_c07(r, tier="quick"):
 # --------------------------------------------------------------------------
 
 EXC_CLASSES = ["ValueError", "FloatingPointError", "MemoryError", "KeyboardInterrupt"]
-C20_NLP = ["SLSQP", "SLSQP", "trust-constr", "trust-constr", "L-BFGS-B", "Newton-CG", "TNC", "BFGS", "CG", "COBYLA", "Nelder-Mead", "Powell", "auto"]
+C20_NLP = ["SLSQP", "SLSQP", "trust-constr", "trust-constr", "L-BFGS-B", "Newton-CG", "TNC", "BFGS", "CG", "COBYLA", "Nelder-Mead", "Powell", "auto", "auto", "auto"]
 HESS_METHODS = ["trust-constr", "Newton-CG"]
 
 
 def gen_c20_scenario(r):
     """Prefix ops, the solve to be faulted (without fault) and suffix ops."""
-    kinds = r.choice([("lin",), ("quad",), ("quad", "nl"), ("lin", "quad", "nl")])
+    kinds = r.choice([("lin",), ("quad",), ("quad", "nl"), ("lin", "quad", "nl"), ("quad", "quad", "lin")])
     deep = 405 if r.random() < 0.12 else 0  # really deep trees: the iterative compiler / gradient paths
     if deep:
         kinds = ("lin", "lin", "quad")
@@ -1448,6 +1448,9 @@ def gen_fault(r, kmax=40, lp=False):
     if k < 0.3:
         return {"site": "exit", "exc": exc}
     kk = r.choice([1, 1, 2, 2, 3, 4, 5, 7, 9, 12, 16, 25, kmax])
+    if k < 0.5:
+        # the callback raises part-way through its own evaluation (j-th line executed inside optyx code)
+        return {"site": "cbi", "k": r.choice([1, 1, 1, 2, 2, 3, 4, 6]), "j": r.choice([1, 2, 2, 3, 3, 4, 5, 6, 8, 12]), "exc": exc}
     return {"site": "cb", "k": kk, "exc": exc}
 
 
@@ -1477,7 +1480,7 @@ def gen_c20(r, tier="quick"):
         fault["exc"] = "KeyboardInterrupt"  # the class that only `finally` (not `except Exception`) handles
     if peers and peers[0]["cls"] == "slsqp-0":
         fault["entry"] = 1
-        if fault["site"] == "cb":
+        if fault["site"] in ("cb", "cbi"):
             fault["k"] += 4
     ops.append(with_fault(sc["target"], fault, reclimit, peers))
     if r.random() < 0.25:
@@ -1512,7 +1515,7 @@ def redeclared_spec(r, sp, int_frac=0.5):
 def gen_redeclare(r, int_frac=0.0, strict_frac=0.0):
     """Constraint-free problem: solve, re-declare the variables under the same names, install an
     objective built from the new objects, solve again (the variable list must be the new objects)."""
-    deep = 405 if r.random() < 0.3 else 0
+    deep = 405 if r.random() < 0.4 else 0
     kinds = ("lin", "lin", "lin", "quad") if deep else ("lin", "quad", "nl", "lin")
     sp, meta = gen_pool(r, kinds=kinds, int_frac=int_frac, nobj=5, ncon=1, deep=deep)
     knobs = gen_knobs(r, 0.7)
@@ -1528,8 +1531,19 @@ def gen_redeclare(r, int_frac=0.0, strict_frac=0.0):
     for _ in range(r.randint(1, 3)):
         ops.append(solve() if r.random() < 0.7 else [r.choice(["read_variables", "read_bounds", "repr"]), 0])
     cur = sp
-    for _ in range(r.choice([1, 1, 2]) if not deep else r.randint(3, 7)):
-        cur = redeclared_spec(r, cur, max(int_frac, 0.3) if not deep else int_frac)
+    deep_names = [o for o in onames if sp["exprs"][o][0] == "chain" and len(sp["exprs"][o][2]) > 400]
+    if deep and deep_names:
+        # many rebuild rounds on really deep objectives: the old trees are freed, the new ones are
+        # allocated where the old ones were (anything keyed by id() / address goes stale)
+        for _ in range(r.randint(8, 14)):
+            cur = redeclared_spec(r, cur, int_frac)
+            ops.append(["redeclare", 0, cur, r.choice(["minimize", "maximize"]), r.choice(deep_names if r.random() < 0.8 else onames)])
+            ops.append([r.choice(["read_variables", "read_bounds", "read_n"]), 0])
+            if r.random() < 0.4:
+                ops.append(["solve", 0, {"method": r.choice(["auto", "linprog", "highs-ds"])}])
+        return {"knobs": knobs, "ops": ops}
+    for _ in range(r.choice([1, 1, 2])):
+        cur = redeclared_spec(r, cur, max(int_frac, 0.3))
         ops.append(["redeclare", 0, cur, r.choice(["minimize", "maximize"]), r.choice(onames)])
         for _ in range(r.randint(1, 3)):
             ops.append(solve() if r.random() < 0.75 else [r.choice(["read_variables", "read_bounds"]), 0])
